@@ -51,6 +51,15 @@ Round 8, third leg (schedules):
   * decorators: `@timeout(...)` ignored; a caching decorator (`@cache`, `@lru_cache`) accepted only when the declared
     return type is immutable (a cached function returning a list hands ONE shared object to all callers: rejected);
     every other decorator is rejected.
+Round 8, fourth leg (temperatures, statuses, outputs, lambda sensor, frame versions):
+  * `x[k] = v` as a statement on a local / parameter NAME (`Py.setitem`: a value operation on a dict, the name is rebound;
+    the mutation seen through other references is not modelled — same stance as `|=`); chained comparisons (`a <= b < c`:
+    `b` evaluated once, the second comparison only when the first holds); `a / b` (`Py.truediv`: the exact rational);
+  * dict comprehensions (the list of `(key, value)` pairs, then `dict(...)`), tuple targets in comprehensions,
+    `enumerate(seq)`, TRUSTED `int(math.pow(a, b))` as ONE primitive (`Py.int_math_pow`: base 2 only);
+  * `with suppress(E…): S` (S one statement without return / continue / break) as `try: S  except (E…): pass`;
+  * `list(<generator expression>)` / `dict(<generator expression>)` / a list comprehension whose element calls a method
+    that assigns attributes of `self`: a `for` loop threading the instance and the list built so far (one clause, no condition).
 Ignored (documented, trusted): `@timeout`, docstrings, type annotations,
 `_LOGGER.*(...)` statements, the arguments (messages) of raised exceptions, `from e` chaining.
 """
@@ -108,6 +117,13 @@ TARGETS = [
     ("pyplumio/structures/schedules.py", "SchedulesStructure._unpack_schedule"),
     ("pyplumio/structures/schedules.py", "SchedulesStructure.decode"),
     ("pyplumio/structures/schedules.py", "SchedulesStructure.encode"),
+    # round 8 (W1d): the sensor sections that needed item assignment / dict comprehensions / suppress / true division
+    ("pyplumio/structures/statuses.py", "StatusesStructure.decode"),
+    ("pyplumio/structures/outputs.py", "OutputsStructure.decode"),
+    ("pyplumio/structures/lambda_sensor.py", "LambdaSensorStructure.decode"),
+    ("pyplumio/structures/temperatures.py", "TemperaturesStructure.decode"),
+    ("pyplumio/structures/frame_versions.py", "FrameVersionsStructure._unpack_frame_versions"),
+    ("pyplumio/structures/frame_versions.py", "FrameVersionsStructure.decode"),
 ]
 
 # decorators.  `@timeout(...)` (asyncio deadline around a coroutine) is ignored: trusted, documented.  A CACHING decorator
@@ -126,7 +142,7 @@ EXCEPTIONS = {
 }
 
 BINOPS = {ast.BitXor: "xor", ast.BitAnd: "and", ast.BitOr: "or", ast.LShift: "lshift", ast.RShift: "rshift",
-          ast.Add: "add", ast.Sub: "sub", ast.Mult: "mul", ast.FloorDiv: "floordiv", ast.Mod: "mod"}
+          ast.Add: "add", ast.Sub: "sub", ast.Mult: "mul", ast.FloorDiv: "floordiv", ast.Mod: "mod", ast.Div: "truediv"}
 CMPOPS = {ast.Eq: "eq", ast.NotEq: "ne", ast.Lt: "lt", ast.LtE: "le", ast.Gt: "gt", ast.GtE: "ge",
           ast.In: "contains", ast.NotIn: "notContains"}
 
@@ -300,6 +316,8 @@ def assigned_names(stmts):
             if isinstance(n, ast.Assign):
                 for t in n.targets:
                     add(t)
+                    if isinstance(t, ast.Subscript) and isinstance(t.value, ast.Name):
+                        add(t.value)      # `x[k] = v` rebinds x (value operation)
             elif isinstance(n, (ast.AugAssign, ast.AnnAssign)):
                 if not (isinstance(n, ast.AnnAssign) and n.value is None):
                     add(n.target)
@@ -877,7 +895,7 @@ class FnTranslator:
 
     def e_Compare(self, n):
         if len(n.ops) != 1:
-            self.fail(n, "chained comparison")
+            return self.chained_compare(n)
         op, right = n.ops[0], n.comparators[0]
         if isinstance(op, (ast.Is, ast.IsNot)):
             if not (isinstance(right, ast.Constant) and right.value is None):
@@ -892,6 +910,27 @@ class FnTranslator:
         l2, b = self.expr(right)
         lines = l1 + l2
         return lines, self.bind(lines, f"{self.P(CMPOPS[type(op)])} {a} {b}")
+
+    def chained_compare(self, n):
+        # `a op1 b op2 c …`: `a op1 b and b op2 c …`, every operand evaluated at most once, left to right, the later
+        # ones only while the comparisons so far hold; the value is the first false comparison or the last one
+        if any(type(op) not in CMPOPS for op in n.ops):
+            self.fail(n, "chained comparison with `is` / an unknown operator")
+        lines, a = self.expr(n.left)
+
+        def rest(a, ops, comps):
+            l, b = self.expr(comps[0])
+            t = self.bind(l, f"{self.P(CMPOPS[type(ops[0])])} {a} {b}")
+            if len(ops) == 1:
+                return l, t
+            c = self.fresh()
+            l.append(f"let {c} ← {self.P('truthy')} {t}")
+            l2, r = rest(b, ops[1:], comps[1:])
+            u = self.fresh()
+            l += [f"let {u} ← (if {c}", "  then do"] + indent(l2 + [f"pure {r}"], 4) + [f"  else pure {t})"]
+            return l, u
+        l, r = self.sub(lambda: rest(a, list(n.ops), list(n.comparators)))
+        return lines + l, r
 
     def e_Subscript(self, n):
         lines, a = self.expr(n.value)
@@ -974,13 +1013,14 @@ class FnTranslator:
         """the list of the elements of a comprehension with the `for` clauses gens (evaluated eagerly, in Python's order:
         the iterable of an inner clause is evaluated once per element of the outer one): -> (lines, atom)"""
         g = gens[0]
-        if g.is_async or not isinstance(g.target, ast.Name):
+        if g.is_async:
             self.fail(n, "comprehension target")
+        var, unpack, tnames = self.comp_target(n, g.target)
         lines, it = self.expr(g.iter)
 
         def body():
-            self.bound.add(g.target.id)
-            out, conds = [], []
+            self.bound |= set(tnames)
+            out, conds = list(unpack), []
             for c in g.ifs:
                 l, a = self.expr(c)
                 out += l
@@ -995,12 +1035,62 @@ class FnTranslator:
             return out
         blk = self.sub(body)
         t = self.fresh()
-        lines += [f"let {t} ← {self.P('listComp')} {it} (fun v_{g.target.id} => (do"] + indent(blk, 4) + ["    : PyM (Option V)))"]
+        lines += [f"let {t} ← {self.P('listComp')} {it} (fun {var} => (do"] + indent(blk, 4) + ["    : PyM (Option V)))"]
         if len(gens) > 1:
             t2 = self.fresh()
             lines.append(f"let {t2} ← {self.P('flatten')} {t}")
             t = t2
         return lines, t
+
+    def comp_target(self, n, target):
+        """the target of a comprehension clause: -> (lambda variable, lines unpacking it, names bound)"""
+        if isinstance(target, ast.Name):
+            return "v_" + target.id, [], [target.id]
+        if isinstance(target, ast.Tuple) and all(isinstance(e, ast.Name) for e in target.elts) and 2 <= len(target.elts) <= 5:
+            names = [e.id for e in target.elts]
+            x = "x" + self.fresh()
+            return x, [f"let ({', '.join('v_' + y for y in names)}) ← {self.P('unpack' + str(len(names)))} {x}"], names
+        self.fail(n, "comprehension target")
+
+    def e_DictComp(self, n):
+        # `{k: v for …}`: the pairs (key evaluated before value) in order, then `dict(pairs)` (a later equal key overwrites
+        # the value and keeps the first position)
+        def pair():
+            l1, k = self.expr(n.key)
+            l2, v = self.expr(n.value)
+            return l1 + l2, f"(V.tuple [{k}, {v}])"
+        if self.has_stateful_call(n.key) or self.has_stateful_call(n.value):
+            self.fail(n, "dict comprehension calling a method that assigns attributes of self")
+        lines, a = self.comp_nest(n, n.generators, pair)
+        return lines, self.bind(lines, f"{self.P('dict_')} {a}")
+
+    def has_stateful_call(self, node):
+        for m in ast.walk(node):
+            if isinstance(m, ast.Call) and isinstance(m.func, ast.Attribute) and isinstance(m.func.value, ast.Name) \
+                    and m.func.value.id == "self" and self.is_stateful_method(m.func.attr):
+                return True
+        return False
+
+    def stateful_comp(self, n, ge):
+        """`[e for x in it]` / the generator expression given to list(...) / dict(...), where e calls a method that assigns
+        attributes of `self`: a for loop threading the instance and the list built so far -> (lines, atom of the list)"""
+        if self.nested or not self.stateful:
+            self.fail(n, "comprehension calling a method that assigns attributes of self, inside a nested scope")
+        if len(ge.generators) != 1 or ge.generators[0].ifs or ge.generators[0].is_async:
+            self.fail(n, "comprehension calling a method that assigns attributes of self: several clauses / a condition")
+        if any(isinstance(m, (ast.NamedExpr, ast.Lambda, ast.ListComp, ast.GeneratorExp, ast.DictComp, ast.SetComp)) for m in ast.walk(ge.elt)):
+            self.fail(n, "comprehension calling a method that assigns attributes of self: nested scope / assignment expression in the element")
+        g = ge.generators[0]
+        var, unpack, tnames = self.comp_target(n, g.target)
+        lines, it = self.expr(g.iter)
+        saved = set(self.bound)
+        self.bound |= set(tnames)
+        l, a = self.expr(ge.elt)
+        self.bound = saved
+        acc = "acc" + self.fresh()
+        body = list(unpack) + l + [f"let {acc} ← {self.P('yield_')} {acc} {a}", f"pure ({acc}, v_self)"]
+        lines += [f"let ({acc}, v_self) ← {self.P('forLoop')} {it} (V.list [], v_self) (fun {var} ({acc}, v_self) => do"] + indent(body, 4) + ["  )"]
+        return lines, acc
 
     def comprehension(self, n, elt):
         if len(n.generators) != 1:
@@ -1012,7 +1102,9 @@ class FnTranslator:
         return lines, it, g
 
     def e_ListComp(self, n):
-        if len(n.generators) > 1:
+        if self.has_stateful_call(n.elt):
+            return self.stateful_comp(n, n)
+        if len(n.generators) > 1 or not isinstance(n.generators[0].target, ast.Name):
             return self.comp_nest(n, n.generators, lambda: self.expr(n.elt))
         lines, it, g = self.comprehension(n, n.elt)
 
@@ -1187,8 +1279,26 @@ class FnTranslator:
                 return l, self.bind(l, f"{self.P('byteItem')} {a}")
             lines, a = self.comp_nest(ge, ge.generators, item)
             return lines, self.bind(lines, f"{self.P('bytearray')} {a}")
+        if name in ("list", "dict") and len(args) == 1 and isinstance(args[0], ast.GeneratorExp):
+            # the constructor consumes the generator completely, here and now: the list of its items, then list(...) / dict(...)
+            ge = args[0]
+            if self.has_stateful_call(ge.elt):
+                lines, a = self.stateful_comp(n, ge)
+            else:
+                lines, a = self.comp_nest(ge, ge.generators, lambda: self.expr(ge.elt))
+            return lines, self.bind(lines, f"{self.P(name + '_')} {a}")
         if any(isinstance(a, (ast.GeneratorExp, ast.Starred)) for a in args):
             self.fail(n, f"{name}(...) of a generator expression / starred argument")
+        if name == "int" and len(args) == 1 and isinstance(args[0], ast.Call) and isinstance(args[0].func, ast.Attribute) \
+                and isinstance(args[0].func.value, ast.Name) and args[0].func.value.id not in self.bound \
+                and self.tr.is_ext(self.mod, args[0].func.value.id, "math") and args[0].func.attr == "pow" \
+                and len(args[0].args) == 2 and not args[0].keywords:
+            # TRUSTED primitive: int(math.pow(a, b)) as ONE operation (the float in between is never a value of the model)
+            lines, atoms = self.seq(args[0].args)
+            return lines, self.bind(lines, f"{self.P('int_math_pow')} {atoms[0]} {atoms[1]}")
+        if name == "enumerate" and len(args) == 1:
+            lines, a = self.expr(args[0])
+            return lines, self.bind(lines, f"{self.P('enumerate')} {a}")
         if name in ("list", "dict") and len(args) == 1:
             # list(it) / dict(it): consumes the iterable completely, here and now — the one place where a call of a
             # generator function is accepted (the generator is translated eagerly)
@@ -1320,7 +1430,7 @@ class FnTranslator:
         for n in ast.walk(self.node):
             if isinstance(n, (ast.FunctionDef, ast.AsyncFunctionDef)) and n is not self.node:
                 self.fail(n, "nested function")
-            if isinstance(n, (ast.Global, ast.Nonlocal, ast.YieldFrom, ast.With, ast.AsyncWith, ast.AsyncFor,
+            if isinstance(n, (ast.Global, ast.Nonlocal, ast.YieldFrom, ast.AsyncWith, ast.AsyncFor,
                               ast.Delete, ast.Assert, ast.Match)):
                 self.fail(n, type(n).__name__)
             if isinstance(n, ast.Name) and n.id == "self" and self.info["has_self"]:
@@ -1448,6 +1558,8 @@ class FnTranslator:
             return True
         if isinstance(st, ast.Try):
             return self.try_(st, rest, k, out)
+        if isinstance(st, ast.With):
+            return self.try_(self.with_suppress(st), rest, k, out)
         self.fail(st, type(st).__name__)
 
     def assign(self, st, out):
@@ -1493,7 +1605,15 @@ class FnTranslator:
             out.append(f"let ({', '.join('v_' + x for x in names)}) ← {self.P('unpack' + str(len(names)))} {a}")
             self.bound |= set(names)
             return
-        self.fail(st, "assignment target (subscript / attribute assignment mutates an object)")
+        if isinstance(target, ast.Subscript) and isinstance(target.value, ast.Name) and not isinstance(target.slice, ast.Slice) \
+                and target.value.id in self.bound and not self.nested:
+            # x[k] = v : value, then container, then key (Python's order); a value operation, x is rebound
+            x = target.value.id
+            l, kk = self.expr(target.slice)
+            out += l
+            out.append(f"let v_{x} ← {self.P('setitem')} v_{x} {kk} {a}")
+            return
+        self.fail(st, "assignment target (slice / attribute assignment, item assignment to something other than a local name)")
 
     def check_own_list(self, st, x):
         """`x.append(e)` is a value operation (`x = x + [e]`) only when nobody else can see the list: x is a local assigned
@@ -1665,6 +1785,27 @@ class FnTranslator:
         self.bound = saved_bound | set(names)
         prim = "whileLoopIO" if self.is_async else "whileLoop"
         out += [f"{self.P(prim)} fuel {init_t}", f"  (fun {pat} => do"] + indent(it, 4) + ["  )", f"  (fun {pat} => do"] + indent(after, 4) + ["  )"]
+
+    def with_suppress(self, st):
+        """`with suppress(E1, …): S` (contextlib.suppress, no `as`, S ONE statement without return / continue / break)
+        is `try: S  except (E1, …): pass`"""
+        it = st.items[0] if len(st.items) == 1 else None
+        c = it.context_expr if it is not None else None
+        if it is None or it.optional_vars is not None or not (isinstance(c, ast.Call) and isinstance(c.func, ast.Name) and not c.keywords
+                                                                and c.args and all(isinstance(a, ast.Name) for a in c.args)):
+            self.fail(st, "with statement other than `with suppress(<exception classes>):`")
+        r = self.tr.repo.resolve(self.mod, c.func.id)
+        if c.func.id in self.locals or not (r and r[0] == "ext" and r[1] == "contextlib" and r[2] == "suppress"):
+            self.fail(st, f"with {c.func.id}(...): only contextlib.suppress is understood")
+        if len(st.body) != 1 or has_transfer(st.body) or isinstance(st.body[0], (ast.For, ast.While, ast.If, ast.Try, ast.With)):
+            self.fail(st, "with suppress(...): a body other than one simple statement")
+        h = ast.ExceptHandler(type=ast.Tuple(elts=list(c.args), ctx=ast.Load()) if len(c.args) > 1 else c.args[0], name=None,
+                              body=[ast.copy_location(ast.Pass(), st)])
+        ast.copy_location(h, st)
+        t = ast.Try(body=st.body, handlers=[h], orelse=[], finalbody=[])
+        ast.copy_location(t, st)
+        t.end_lineno = st.end_lineno
+        return t
 
     def catch_list(self, st, h):
         t = h.type
